@@ -325,6 +325,12 @@ def functions_of(tree):
     return out
 
 
+def _simple_operand(v) -> bool:
+    """an operand of and / or whose negation is written compactly (complementary operator, `not x`, or x for `not x`)"""
+    return (isinstance(v, ast.Compare) and len(v.ops) == 1 and type(v.ops[0]) in _COMPL) or (isinstance(v, ast.UnaryOp) and isinstance(v.op, ast.Not)) \
+        or isinstance(v, (ast.Name, ast.Attribute, ast.Call, ast.Subscript))
+
+
 def _negate(test):
     """the negation of a test, in the canonical notation (complementary operator for a single
     identity / membership / equality comparison, `not` stripped or added otherwise)"""
@@ -332,6 +338,9 @@ def _negate(test):
         return test.operand
     if isinstance(test, ast.Compare) and len(test.ops) == 1 and type(test.ops[0]) in _COMPL:
         return ast.copy_location(ast.Compare(left=test.left, ops=[_COMPL[type(test.ops[0])]()], comparators=test.comparators), test)
+    if isinstance(test, ast.BoolOp) and all(_simple_operand(v) for v in test.values):
+        # De Morgan, as _PushNot writes it
+        return ast.copy_location(ast.BoolOp(op=ast.And() if isinstance(test.op, ast.Or) else ast.Or(), values=[_negate(v) for v in test.values]), test)
     return ast.copy_location(ast.UnaryOp(op=ast.Not(), operand=test), test)
 
 
@@ -466,8 +475,7 @@ class _PushNot(ast.NodeTransformer):
     def visit_UnaryOp(self, node):
         self.generic_visit(node)
         # De Morgan: `not (a or b)` is `not a and not b` when every operand has a compact negation
-        if isinstance(node.op, ast.Not) and isinstance(node.operand, ast.BoolOp) and all(
-                (isinstance(v, ast.Compare) and len(v.ops) == 1 and type(v.ops[0]) in _COMPL) or (isinstance(v, ast.UnaryOp) and isinstance(v.op, ast.Not)) for v in node.operand.values):
+        if isinstance(node.op, ast.Not) and isinstance(node.operand, ast.BoolOp) and all(_simple_operand(v) for v in node.operand.values):
             self.n += 1
             vals = [_negate(v) for v in node.operand.values]
             return ast.copy_location(ast.BoolOp(op=ast.And() if isinstance(node.operand.op, ast.Or) else ast.Or(), values=vals), node)
@@ -593,6 +601,7 @@ def normalise_module(tree, module_name: str) -> int:
     pn = _PushNot()
     pn.visit(tree)
     pn.n += N3.merge_dict_updates(tree)
+    pn.n += N3.append_loops(tree)
     ref = load_ref().get(module_name)
     if not ref:
         return pn.n
@@ -615,7 +624,8 @@ def normalise_module(tree, module_name: str) -> int:
         if r:
             if "guards" in r:
                 n += normalise_function(fn, r)
-                for step in (N3.items_to_keys, N3.unpack_to_index, N3.expand_next, N3.split_new_tuple_assigns, N3.dup_tails, N3.split_flagged_branches, N2.merge_branch_assignments, N2.inline_new_locals, N2.inline_new_locals, N2._ifexp_calls, N2.ifexp_tests, N2.split_ifexp_statements, N2.expand_new_comprehensions, N2.contract_known_loops, N2.inline_new_locals, N2.contract_known_ifexp, N2.unguard, N2.guardify):
+                for step in (N3.items_to_keys, N3.unpack_to_index, N3.expand_next, N3.expand_next_search, N3.expand_dict_dispatch, N3.expand_joins, N3.split_new_tuple_assigns, N3.dup_tails, N3.split_flagged_branches,
+                             N2.merge_branch_assignments, N2.inline_new_locals, N2.inline_new_locals, N3.expand_dict_dispatch, N3.unroll_display_loops, N3.expand_joins, N2._ifexp_calls, N2.ifexp_tests, N2.split_ifexp_statements, N2.expand_new_comprehensions, N2.contract_known_loops, N2.inline_new_locals, N2.contract_known_ifexp, N2.unguard, N2.guardify):
                     try:
                         n += step(fn, r)
                     except Exception:   # pragma: no cover
@@ -627,6 +637,7 @@ def normalise_module(tree, module_name: str) -> int:
                         n += step(fn, r)
                     except Exception:   # pragma: no cover
                         pass
+                N3.append_loops(fn)
                 pn2 = _PushNot()
                 pn2.visit(fn)
                 ast.fix_missing_locations(fn)
@@ -639,6 +650,7 @@ def build_reference(modules: Dict[str, ast.AST]) -> dict:
         _PushNot().visit(tree)   # texts are compared after the unconditional canonicalisation
         from . import normalise3 as N3
         N3.merge_dict_updates(tree)
+        N3.append_loops(tree)
         fs = {}
         for q, fn in functions_of(tree):
             fs[q] = shape(fn)
